@@ -37,7 +37,7 @@ func text(n ast.Node) string {
 		die("cannot print node: %v", err)
 	}
 	s := b.String()
-	if strings.ContainsAny(s, "\"`'") {
+	if strings.ContainsAny(s, "\"`") {
 		die("%s: unexpected literal in %q", fset.Position(n.Pos()), s)
 	}
 	return strings.Join(strings.Fields(s), "")
